@@ -147,13 +147,15 @@ func (p *Polygon) arcVertex(i int) bool {
 	// distance from a to midpoint
 	dMid := mid.Sub(a).Length()
 	// distance from midpoint to center of arc
-	dCenter := math.Sqrt((radius * radius) - (dMid * dMid))
+	// (when the chord is a diameter the difference can round below zero)
+	dCenter := math.Sqrt(math.Max(0, (radius*radius)-(dMid*dMid)))
 	// center of arc
 	c := mid.Add(n.MulScalar(dCenter))
 	// work out the angle
 	ac := a.Sub(c).Normalize()
 	bc := b.Sub(c).Normalize()
-	dtheta := -side * math.Acos(ac.Dot(bc)) / float64(v.facets)
+	// (for a semicircle the dot product of the unit vectors can round below -1)
+	dtheta := -side * math.Acos(Clamp(ac.Dot(bc), -1, 1)) / float64(v.facets)
 	// rotation matrix
 	m := Rotate(dtheta)
 	// radius vector
